@@ -559,7 +559,7 @@ func (p *jsonPathParser) _createBasicCompareQuery(
 
 func (p *jsonPathParser) pushCompareEQ(
 	leftParam, rightParam *syntaxBasicCompareParameter) {
-	if leftParam.isLiteral {
+	if _, rightIsLiteralValue := rightParam.param.(*syntaxQueryParamLiteral); leftParam.isLiteral && !rightIsLiteralValue {
 		rightParam, leftParam = leftParam, rightParam
 	}
 
